@@ -324,7 +324,8 @@ enum IOp {
 // Png(2) renders a third symbol with the same pixel dimensions as Png(0) but other modules: a buffer kept inside the
 // renderer and reused without clearing only shows when two renders have the same size, and only through pixels the
 // second render leaves untouched (a transparent background)
-const IMAGE_ALPHABET: [IOp; 9] = [IOp::Shape(1), IOp::Margin(1), IOp::FitW(84), IOp::FitH(100), IOp::Color([0, 128, 0, 255]), IOp::Background([0, 0, 0, 0]), IOp::Png(0), IOp::Png(1), IOp::Png(2)];
+// two widths and two heights: a bound that is set, overridden by the other one, and set again
+const IMAGE_ALPHABET: [IOp; 11] = [IOp::Shape(1), IOp::Margin(1), IOp::FitW(84), IOp::FitW(150), IOp::FitH(100), IOp::FitH(60), IOp::Color([0, 128, 0, 255]), IOp::Background([0, 0, 0, 0]), IOp::Png(0), IOp::Png(1), IOp::Png(2)];
 
 #[derive(Clone, Debug, Default, PartialEq, Eq, Hash)]
 struct IModel {
@@ -770,7 +771,8 @@ pub fn run(ctx: &Ctx) -> Collector {
         Err(e) => col.machinery_error(format!("render anchor child: {}", e)),
     }
     // ImageBuilder histories
-    let idepth = if thorough { 4 } else { 3 };
+    // depth 4 in both tiers: set, set, set again, render
+    let idepth = 4;
     let icount = IMAGE_ALPHABET.len().pow(idepth as u32);
     let istates: Mutex<HashSet<IModel>> = Mutex::new(HashSet::new());
     pool::par_for(icount, |idx| {
